@@ -158,6 +158,25 @@ func load(c *Case, env *Env) (m *gonnx.Model, o outcome) {
 		if o.kind == "ok" {
 			o = outcome{kind: "panic", pmsg: "a_Model_was_constructed_from_a_missing_file_or_a_directory", frame: "NewModelFromFile"}
 		}
+	case "zip-multi":
+		// an archive with several entries (directories, other files, oddly named entries, the model): the caller hands
+		// EVERY entry to NewModelFromZipFile in turn (it does not know which one is the model); none may panic, and the
+		// entry that is the model - the first whose name ends in .onnx - is the one observed
+		zr, err := zip.NewReader(bytes.NewReader(c.Data), int64(len(c.Data)))
+		if err != nil || len(zr.File) == 0 {
+			return nil, outcome{kind: "error", err: errors.New("zip: archive refused before gonnx")}
+		}
+		pick := pickEntry(zr)
+		for i, f := range zr.File {
+			var mi *gonnx.Model
+			oi := guard(func() (err error) { mi, err = gonnx.NewModelFromZipFile(f); return })
+			if oi.kind == "panic" {
+				return nil, oi
+			}
+			if i == pick {
+				m, o = mi, oi
+			}
+		}
 	case "zip-store", "zip-deflate":
 		// c.Data is the archive as it sits on the medium (already damaged, if so).
 		ra := &medium.FaultyReaderAt{Data: c.Data, FailFrom: c.ZipFail, FailLen: c.ZipLen, Mode: c.ZipMode}
@@ -273,7 +292,11 @@ func modelBytes(c *Case) ([]byte, bool) {
 	if err != nil || len(zr.File) == 0 {
 		return nil, false
 	}
-	rc, err := zr.File[0].Open()
+	idx := 0
+	if c.Reader == "zip-multi" {
+		idx = pickEntry(zr)
+	}
+	rc, err := zr.File[idx].Open()
 	if err != nil {
 		return nil, false
 	}
@@ -285,17 +308,64 @@ func modelBytes(c *Case) ([]byte, bool) {
 	return b.Bytes(), true
 }
 
+// pickEntry: the first entry whose name ends in ".onnx", else the first entry.
+func pickEntry(zr *zip.Reader) int {
+	for i, f := range zr.File {
+		if strings.HasSuffix(f.Name, ".onnx") {
+			return i
+		}
+	}
+	return 0
+}
+
+// MakeMultiZip: an archive in which the model is one entry among others.
+func MakeMultiZip(model []byte, layout int) []byte {
+	var buf bytes.Buffer
+	zw := zip.NewWriter(&buf)
+	add := func(name string, data []byte, method uint16) {
+		w, err := zw.CreateHeader(&zip.FileHeader{Name: name, Method: method})
+		if err != nil {
+			panic(err)
+		}
+		w.Write(data)
+	}
+	pre := [][2]string{{"models/", ""}, {"README.md", "# weights\n"}, {"models/empty.onnx.bak", ""}, {"__MACOSX/._model.onnx", "\x00\x05\x16\x07"}, {"", "nameless"}, {"../escape.txt", "x"}, {"a\\b.txt", "y"}, {"models/sub/", ""}}
+	for i, e := range pre {
+		if layout&(1<<uint(i)) != 0 {
+			add(e[0], []byte(e[1]), zip.Store)
+		}
+	}
+	name := []string{"models/model.onnx", "model.onnx", "MODEL.ONNX.onnx", "models/sub/m.onnx"}[layout%4]
+	method := uint16(zip.Store)
+	if layout&0x100 != 0 {
+		method = zip.Deflate
+	}
+	add(name, model, method)
+	if layout&0x200 != 0 {
+		add("models/second.onnx", []byte("not a model"), zip.Store)
+		add("trailing/", nil, zip.Store)
+	}
+	if err := zw.Close(); err != nil {
+		panic(err)
+	}
+	return buf.Bytes()
+}
+
 // archiveEntryDamaged: the archive opens and has an entry, but reading that entry to the end with archive/zip
 // itself fails (checksum mismatch, broken deflate stream, size mismatch).
 func archiveEntryDamaged(c *Case) bool {
-	if c.Reader != "zip-store" && c.Reader != "zip-deflate" {
+	if c.Reader != "zip-store" && c.Reader != "zip-deflate" && c.Reader != "zip-multi" {
 		return false
 	}
 	zr, err := zip.NewReader(bytes.NewReader(c.Data), int64(len(c.Data)))
 	if err != nil || len(zr.File) == 0 {
 		return false
 	}
-	rc, err := zr.File[0].Open()
+	idx := 0
+	if c.Reader == "zip-multi" {
+		idx = pickEntry(zr)
+	}
+	rc, err := zr.File[idx].Open()
 	if err != nil {
 		return true
 	}
